@@ -141,6 +141,16 @@ CLAIMS.update({
    technique="Lean 4 proof (totality, fuel sufficiency, unreachable panic outcomes) + differential mutation fuzzing under recover()/watchdog"),
 })
 
+CLAIMS.update({
+ 'C16': dict(level='proof',
+   text="Lean theorems over the two client loops (recipient-v1, identity-v1) as total functions of the plugin's message list + end marker, ∀ conversations of any length, ∀ UI callbacks: phase1_wellformed_*, phase1_strings_valid, "
+        "index_must_be_zero_*, index_zero_accepted, duplicate_filekey_error, duplicate_labels_error, error_acked_then_abort_*, plugin_error_only_from_error, unknown_unsupported_and_ignored_* (deleting unknown commands deletes exactly the "
+        "`unsupported` replies), unknown_answered_unsupported, ui_dispatch_{msg,request,confirm}_*, confirm_malformed_fatal_*, no_stanza_wrap_fails, no_filekey_incorrect_identity, eof_is_error_*, eof_after_harmless_messages. "
+        "Tie: the REAL client against a scripted plugin binary found through PATH: all conversations up to 3–5 messages over the protocol alphabet (valid and malformed variants, EOF at every point), both machines, 27 UI combinations, sync and burst delivery, 20 s watchdog.",
+   note=COMMON_NOTE + "The plugin's output enters the model after stanza framing (message list + eof/malformed); byte-level framing is C07's model. Write failures towards the plugin and WaitTimer are not modelled; a live plugin that neither writes nor exits is out of scope. Models the tree with fix: commit F8.",
+   technique="Lean 4 proof (structural induction over conversations) + exhaustive short-conversation correspondence against a scripted plugin process"),
+})
+
 def main():
     hook = subprocess.run(['git', '-C', '/repo', 'log', '--format=%h', '--grep=^verifhook', '-n', '5'], capture_output=True, text=True).stdout.split()
     m = {
